@@ -285,6 +285,14 @@ class C13(Prop):
                     pairs.append((a, b))
                 out.append({"zone": z, "date": [2026, 9, 28 + dd] if 28 + dd <= 30 else [2026, 10, 28 + dd - 30],
                             "pairs": pairs, "sec": ctx.rng.choice([0, 1, 30, 59])})
+        # the week around every 2026 clock change of the DST zones, at the minutes next to midnight
+        for z in [zz for zz in zones if zz not in ("UTC", "Asia/Kathmandu", "Pacific/Kiritimati", "Pacific/Pago_Pago")] + (["Europe/London"] if not ctx.quick else []):
+            from zoneinfo import ZoneInfo
+            for t in transition_days(z, 2026):
+                for dd in range(-4, 3):
+                    dt = datetime.fromtimestamp(t + dd * 86400, tz=ZoneInfo(z))
+                    out.append({"zone": z, "date": [dt.year, dt.month, dt.day], "sec": ctx.rng.choice([0, 30, 59]),
+                                "pairs": [(1439, 0), (1410, 1380), (0, 1439), (30, 0), (90, 60), (1380, 1381), (1425, 10)][: ctx.pick(4, 7)]})
         # history: the same process asked again on an EARLIER day and across new year (nothing remembered from before may leak)
         for z in zones[:2]:
             out.append({"zone": z, "date": [2026, 9, 21], "pairs": base[:6], "sec": 0})
